@@ -971,7 +971,7 @@ class C07(core.Check):
         # beyond Latin-1 (the response header then needs RFC 2047 or percent-encoding, under either protocol version)
         for q in ('x=\u20ac', 'k\u0416=1&y=\U0001F600', '\u20ac'):
             raw = q.encode('utf-8').decode('latin-1')
-            for t in ('/static', '/md', '/plain/x/..', '/proxy'):
+            for t in ('/sub', '/sub/x/..', '/proxy'):
                 for proto in ('HTTP/1.1', 'HTTP/1.0'):
                     out.append(self.http('plain', 'redirect:raw-utf8-query', 'GET', t + '?' + raw, proto=proto))
         # -- Content-Disposition of the request itself (Entity.__init__ runs for every request)
@@ -1162,7 +1162,14 @@ class C07(core.Check):
             def POST(self, *a, **kw):
                 return 'md post %d' % sum(total(v) for v in kw.values())
 
+        class Sub:
+            @cherrypy.expose
+            def index(self, *a, **kw):
+                return 'sub index'
+
         class Root:
+            sub = Sub()          # /sub (no trailing slash) is answered by the trailing_slash tool's redirect
+
             @cherrypy.expose
             def index(self, *a, **kw):
                 return 'index'
